@@ -201,6 +201,14 @@ PROPS['C16'] = _board('C16', [],
     'No panic, no data race, output closed within a timeout after quit / end of input, one readyok per isready, no bestmove that is illegal in the position last set up (stale), no duplicate answers.')
 PROPS['C16'].update({'stress': ['C16']})
 
+PROPS['C18'] = _board('C18', ['C18', 'C15'],
+    'for each of the four bundled engine configurations (noise off, no table): random games from the start or curated positions, analysed to depth 1-3: on a fresh engine, twice on one engine, with Zobrist seeds 0/1/99, after unrelated searches and after searching the SAME position with a different history (a reversible 4-ply shuffle appended: same position and hash, other HasMoved / last move / move number), concurrently on three engines, and with noise on twice from the same seed; every analysis also checks that the engine s own game (FEN and all board getters) is unchanged.',
+    'Last reported PV (depth, node count, score, moves) must be identical across all runs of the same game state and depth; the engine game must be unchanged by Analyze.')
+
+PROPS['C20'] = _board('C20', ['C20'],
+    'every curated position as it stands (e.p. targets, castling rights, promotions, mates) and 120 (quick) / 3000 (thorough) short games (0-13 plies, biased to special moves) from the start, curated and random positions, each also set up colour-mirrored with mirrored moves; opening books: bundled books and books built with engine.NewBook from generated lines, queried on all positions of the lines, of transposing games (same placement, different e.p. status / castling rights) and of random playouts.',
+    'Evaluations (eval.Material, TUROCHAMP Eval/Material, BERNSTEIN Eval with factors 20 and 0, SARGON Points also after every legal move) must not panic and must be finite; the first five must be equal on the mirrored game; FindPlausibleMoves returns only legal non-under-promotion moves, each once, non-empty when possible; the branch-limited selection picks only those, at most the limit, at least one; SkipUnderPromotions non-starving; IsConsiderableMove total on every legal move; depth-1 searches of the three historical engines do not panic; every book reply legal in the position it is returned for.')
+
 for _p in WIDEN_THOROUGH:
     if _p in PROPS:
         PROPS[_p]['widen_tier'] = 'thorough'
